@@ -123,7 +123,9 @@ pub fn eval_node<F: FnMut(&GraphColoredVertices, &str)>(
     // 2) fixed-points
     if is_fixed_point_pattern(&node) {
         progress_callback(&empty_set, "Evaluating fixed-point pattern.");
-        return steady_states.clone();
+        // the pre-computed steady states are relative to the original graph, but the pattern can
+        // also occur in a domain-restricted scope (evaluated on a graph with a smaller unit set)
+        return steady_states.intersect(graph.unit_colored_vertices());
     }
 
     let result = match node.node_type {
